@@ -14,7 +14,7 @@ def fp_on(st):
     return st.get("fp") is True or st.get("fp") == 1 or (st.get("fp") is None and st["v"] >= 8)
 
 
-def a3_trigger(unopt_text):
+def a3_trigger(unopt_text, reserved=()):
     """A3: the unoptimised program has a slot with exactly one load, a `store s; load s` adjacent pair and
     at least one further store of s - the optimiser cancels the slot and deletes every store of it."""
     instrs, _ = tealtok.parse_program(unopt_text)
@@ -26,7 +26,8 @@ def a3_trigger(unopt_text):
                 adjacent.add(ins["i"][0])
         elif ins["op"] == "store":
             stores[ins["i"][0]] = stores.get(ins["i"][0], 0) + 1
-    return any(loads.get(s, 0) == 1 and stores.get(s, 0) >= 2 for s in adjacent)
+    # slots with a user-requested id are never touched by a correct optimiser, so they are not instances of A3
+    return any(loads.get(s, 0) == 1 and stores.get(s, 0) >= 2 for s in adjacent if s not in reserved)
 
 
 def classify_a3(entry, metas, k):
@@ -38,7 +39,7 @@ def classify_a3(entry, metas, k):
     for other in metas:
         if opt_on(other["st"]):
             continue
-        if (no_routines or fp_on(other["st"]) == fp_on(me["st"])) and a3_trigger(other["text"]):
+        if (no_routines or fp_on(other["st"]) == fp_on(me["st"])) and a3_trigger(other["text"], entry.get("req", ())):
             return "A3/optimizer-deletes-every-store-of-cancelled-slot"
     return None
 
